@@ -30,6 +30,8 @@ type Runner struct {
 	// optional annotation of a step's result before it is recorded (twin mode)
 	Annot func(ev M, res J)
 	txIdx int
+	// the original chain after an ExportImport, stepped in lockstep with the re-imported one (r.W)
+	Orig *World
 }
 
 func NewRunner(out *bufio.Writer) *Runner {
@@ -224,15 +226,98 @@ func txResJ(code uint32, codespace string, data []byte, log string, gasW, gasU i
 	return res
 }
 
-// Step executes one schedule entry and records it. Returns false when the behaviour must stop
-// (harness error); application panics are observations, not errors.
+// execOn executes one event on world w and returns its result record.
+func (r *Runner) execOn(w *World, ev M, primary bool) (J, error) {
+	a := mStr(ev, "a")
+	res := J{}
+	switch a {
+	case "BeginBlock":
+		dt := mI64(ev, "dt")
+		p := w.BeginBlock(dt)
+		if primary {
+			r.txIdx = 0
+		}
+		res["panic"] = p != ""
+		res["ok"] = p == ""
+		if p != "" {
+			res["log"] = trunc(p)
+		}
+		m, b := coinEvents(w.lastEvents)
+		res["mints"], res["burns"] = m, b
+	case "EndBlock":
+		p := w.EndBlock()
+		res["panic"] = p != ""
+		res["ok"] = p == ""
+		if p != "" {
+			res["log"] = trunc(p)
+		}
+		m, b := coinEvents(w.lastEvents)
+		res["mints"], res["burns"] = m, b
+	case "Commit":
+		p := w.Commit()
+		res["panic"] = p != ""
+		res["ok"] = p == ""
+		res["hash"] = fmt.Sprintf("%X", w.App.LastCommitID().Hash)
+	case "DeliverTx", "CheckTx":
+		t := parseTxSpec(ev)
+		var bz []byte
+		var berr error
+		func() {
+			defer func() {
+				if x := recover(); x != nil {
+					berr = fmt.Errorf("build panic: %v", x)
+				}
+			}()
+			bz, _, berr = w.BuildTx(w.Ctx(), t)
+		}()
+		if berr != nil {
+			return nil, fmt.Errorf("BuildTx: %w", berr)
+		}
+		if a == "DeliverTx" {
+			rr := w.App.DeliverTx(abci.RequestDeliverTx{Tx: bz})
+			res = txResJ(rr.Code, rr.Codespace, rr.Data, rr.Log, rr.GasWanted, rr.GasUsed, r)
+			res["gasW"], res["gasU"] = rr.GasWanted, rr.GasUsed
+			res["rawData"] = fmt.Sprintf("%X", rr.Data)
+			m, b := coinEvents(rr.Events)
+			res["mints"], res["burns"] = m, b
+			if primary {
+				r.txIdx++
+				if rr.Code == 0 {
+					r.track(t.Msgs, nil)
+				}
+			}
+		} else {
+			rr := w.App.CheckTx(abci.RequestCheckTx{Tx: bz, Type: abci.CheckTxType_New})
+			res = txResJ(rr.Code, rr.Codespace, rr.Data, rr.Log, rr.GasWanted, rr.GasUsed, r)
+		}
+	case "Crash":
+		// the process dies here: nothing is executed; Restart re-opens the database
+		res["ok"] = true
+	case "Restart":
+		if err := w.Restart(); err != nil {
+			return nil, err
+		}
+		if primary {
+			r.txIdx = 0
+		}
+		res["ok"] = true
+		res["height"] = w.App.LastBlockHeight()
+		res["hash"] = fmt.Sprintf("%X", w.App.LastCommitID().Hash)
+	default:
+		return nil, fmt.Errorf("harness: unknown action %q", a)
+	}
+	return res, nil
+}
+
+// Step executes one schedule entry and records it. Application panics are observations, not errors.
 func (r *Runner) Step(ev M) error {
 	a := mStr(ev, "a")
 	expandAll(ev)
 	rec := J{"a": a, "args": ev}
-	res := J{}
+	var res J
 	switch a {
 	case "InitChain":
+		res = J{}
 		g := DefaultGenSpec()
 		if gm, ok := ev["g"]; ok && gm != nil {
 			bz, _ := json.Marshal(gm)
@@ -244,82 +329,41 @@ func (r *Runner) Step(ev M) error {
 		if r.W != nil {
 			r.W.Close()
 		}
+		if r.Orig != nil {
+			r.Orig.Close()
+			r.Orig = nil
+		}
 		r.Tr = &Track{WrkEver: map[uint64][]uint64{}, BcnEver: map[uint64][]uint64{}}
 		w, err := NewWorld(g)
 		if err != nil {
-			// genesis panics are observations for import checks; here they are harness errors
 			return err
 		}
 		r.W = w
 		res["ok"] = true
-	case "BeginBlock":
-		dt := mI64(ev, "dt")
-		p := r.W.BeginBlock(dt)
-		r.txIdx = 0
-		res["panic"] = p != ""
-		res["ok"] = p == ""
-		if p != "" {
-			res["log"] = trunc(p)
-		}
-		m, b := coinEvents(r.W.lastEvents)
-		res["mints"], res["burns"] = m, b
-	case "EndBlock":
-		p := r.W.EndBlock()
-		res["panic"] = p != ""
-		res["ok"] = p == ""
-		if p != "" {
-			res["log"] = trunc(p)
-		}
-		m, b := coinEvents(r.W.lastEvents)
-		res["mints"], res["burns"] = m, b
-	case "Commit":
-		p := r.W.Commit()
-		res["panic"] = p != ""
-		res["ok"] = p == ""
-		res["hash"] = fmt.Sprintf("%X", r.W.App.LastCommitID().Hash)
-	case "DeliverTx", "CheckTx":
-		t := parseTxSpec(ev)
-		var bz []byte
-		var berr error
-		func() {
-			defer func() {
-				if x := recover(); x != nil {
-					berr = fmt.Errorf("build panic: %v", x)
-				}
-			}()
-			bz, _, berr = r.W.BuildTx(r.W.Ctx(), t)
-		}()
-		if berr != nil {
-			return fmt.Errorf("BuildTx: %w", berr)
-		}
-		if a == "DeliverTx" {
-			rr := r.W.App.DeliverTx(abci.RequestDeliverTx{Tx: bz})
-			res = txResJ(rr.Code, rr.Codespace, rr.Data, rr.Log, rr.GasWanted, rr.GasUsed, r)
-			res["gasW"], res["gasU"] = rr.GasWanted, rr.GasUsed
-			res["rawData"] = fmt.Sprintf("%X", rr.Data)
-			r.txIdx++
-			m, b := coinEvents(rr.Events)
-			res["mints"], res["burns"] = m, b
-			if rr.Code == 0 {
-				r.track(t.Msgs, nil)
+	case "ExportImport":
+		var nw *World
+		res, nw = r.W.ExportImport()
+		if nw != nil {
+			// from now on: r.W = the re-imported chain, r.Orig = the original, stepped in lockstep
+			if r.Orig != nil {
+				r.Orig.Close()
 			}
-		} else {
-			rr := r.W.App.CheckTx(abci.RequestCheckTx{Tx: bz, Type: abci.CheckTxType_New})
-			res = txResJ(rr.Code, rr.Codespace, rr.Data, rr.Log, rr.GasWanted, rr.GasUsed, r)
+			r.Orig = r.W
+			r.W = nw
 		}
-	case "Crash":
-		// the process dies here: nothing is executed; Restart re-opens the database
-		res["ok"] = true
-	case "Restart":
-		if err := r.W.Restart(); err != nil {
+	default:
+		var err error
+		res, err = r.execOn(r.W, ev, true)
+		if err != nil {
 			return err
 		}
-		r.txIdx = 0
-		res["ok"] = true
-		res["height"] = r.W.App.LastBlockHeight()
-		res["hash"] = fmt.Sprintf("%X", r.W.App.LastCommitID().Hash)
-	default:
-		return fmt.Errorf("harness: unknown action %q", a)
+		if r.Orig != nil {
+			ro, err := r.execOn(r.Orig, ev, false)
+			if err != nil {
+				return err
+			}
+			rec["resOrig"] = J{"ok": ro["ok"] == true}
+		}
 	}
 	if r.Annot != nil {
 		r.Annot(ev, res)
@@ -335,6 +379,9 @@ func (r *Runner) Step(ev M) error {
 	}
 	if !r.NoProj {
 		rec["post"] = r.W.Project(r.Tr)
+		if r.Orig != nil {
+			rec["postOrig"] = r.Orig.Project(r.Tr)
+		}
 	}
 	r.Raw = append(r.Raw, rec)
 	r.emit(rec)
